@@ -313,6 +313,10 @@ struct Env {
     /// segment dumps by segment id (taken when the segment was first seen)
     dumps: HashMap<String, (SegDump, Vec<u64>)>,
     log: Vec<String>,
+    /// events for the Lean writer machine (`C04 trace`): uids added since the last flush, and the
+    /// event tokens so far (only maintained by the cases that control every flush themselves)
+    buffer: Vec<u64>,
+    evlog: Vec<String>,
 }
 
 impl Env {
@@ -333,6 +337,7 @@ impl Env {
         Env {
             vdir, index, writer: Some(writer), f, reference: Reference::new(&schema), gate, grp_of: HashMap::new(), next_uid: 1, batch: 0,
             pending: BTreeSet::new(), committed: BTreeSet::new(), dumps: HashMap::new(), log: vec![],
+            buffer: vec![], evlog: vec![],
         }
     }
     fn add_docs(&mut self, rng: &mut Rng, n: usize) {
@@ -351,12 +356,24 @@ impl Env {
             self.writer.as_mut().unwrap().add_document(doc).unwrap();
             self.grp_of.insert(uid, grp);
             self.pending.insert(uid);
+            self.buffer.push(uid);
         }
         self.log.push(format!("add {n}"));
+    }
+    /// the buffered docs become one uncommitted segment; docs already hit by a later delete of
+    /// the same transaction are dead on arrival (the model's `addSeg` takes the live ones)
+    fn note_flush(&mut self) {
+        if self.buffer.is_empty() {
+            return;
+        }
+        let docs: Vec<String> = self.buffer.iter().filter(|u| self.pending.contains(u)).map(|u| format!("{}.{}.{}", u, 1_000_000 + u, self.grp_of[u])).collect();
+        self.evlog.push(format!("a:{}", if docs.is_empty() { "-".to_string() } else { docs.join(",") }));
+        self.buffer.clear();
     }
     fn delete_uid(&mut self, uid: u64) {
         self.writer.as_mut().unwrap().delete_term(Term::from_field_u64(self.f.id, uid));
         self.pending.remove(&uid);
+        self.evlog.push(format!("d:{}", 1_000_000 + uid));
         self.log.push(format!("delete id={uid}"));
     }
     fn delete_grp(&mut self, grp: u64) {
@@ -365,24 +382,30 @@ impl Env {
         for u in gone {
             self.pending.remove(&u);
         }
+        self.evlog.push(format!("d:{grp}"));
         self.log.push(format!("delete grp={grp}"));
     }
     fn commit(&mut self) {
         self.writer.as_mut().unwrap().commit().unwrap();
         self.committed = self.pending.clone();
         self.reference.sync();
+        self.note_flush();
+        self.evlog.push("c".into());
         self.log.push("commit".into());
     }
     fn rollback(&mut self) {
         self.writer.as_mut().unwrap().rollback().unwrap();
         self.writer.as_mut().unwrap().set_merge_policy(Box::new(NoMergePolicy));
         self.pending = self.committed.clone();
+        self.buffer.clear();
+        self.evlog.push("r".into());
         self.log.push("rollback".into());
     }
     /// flush the pending documents into an UNCOMMITTED segment (`prepare_commit()` dropped)
     fn flush_uncommitted(&mut self) {
         let prepared = self.writer.as_mut().unwrap().prepare_commit().unwrap();
         drop(prepared);
+        self.note_flush();
         self.log.push("flush (prepare_commit dropped)".into());
     }
     /// let every running merge finish, drop the writer (nothing committed), open a new one
@@ -393,6 +416,8 @@ impl Env {
         w.set_merge_policy(Box::new(NoMergePolicy));
         self.writer = Some(w);
         self.pending = self.committed.clone();
+        self.buffer.clear();
+        self.evlog.push("r".into());
         self.log.push("wait_merging_threads; reopen".into());
     }
     fn searchable(&self) -> Vec<SegmentMeta> {
@@ -750,7 +775,10 @@ fn case_policy(ctx: &mut Ctx, case_seed: u64) {
     let _ = env.writer.take().unwrap().wait_merging_threads();
 }
 
-const ACTIONS: [&str; 9] = ["delete-commit", "delete-source-commit", "rollback", "delete-all-commit", "overlapping-merge", "disjoint-merge", "gc", "add-commit", "delete-commit-twice"];
+const ACTIONS: [&str; 12] = ["delete-commit", "delete-source-commit", "rollback", "delete-all-commit", "overlapping-merge", "disjoint-merge", "gc", "add-commit", "delete-commit-twice",
+    // a second merge that shares a source with the parked one in its LAST / a MIDDLE position, or
+    // takes all of its sources: the parked merge is stale when it resumes and must be cancelled
+    "overlap-shared-last", "overlap-shared-middle", "overlap-all-sources"];
 
 /// C. a committed merge paused at its k-th storage operation while the main thread acts
 fn case_schedule(ctx: &mut Ctx, case_seed: u64, forced: Option<(usize, u64)>) {
@@ -831,6 +859,25 @@ fn case_schedule(ctx: &mut Ctx, case_seed: u64, forced: Option<(usize, u64)>) {
             ids2.extend(rest_ids.iter().take(1));
             second = Some(env.writer.as_mut().unwrap().merge(&ids2));
         }
+        "overlap-shared-last" => {
+            let mut ids2: Vec<SegmentId> = rest_ids.iter().take(1).copied().collect();
+            ids2.push(*src_ids.last().unwrap());
+            second = Some(env.writer.as_mut().unwrap().merge(&ids2));
+            expect_discard = paused;
+        }
+        "overlap-shared-middle" => {
+            let mid = if src_ids.len() >= 3 { src_ids[1] } else { *src_ids.last().unwrap() };
+            let mut ids2: Vec<SegmentId> = vec![mid];
+            ids2.extend(rest_ids.iter().take(1));
+            second = Some(env.writer.as_mut().unwrap().merge(&ids2));
+            expect_discard = paused;
+        }
+        "overlap-all-sources" => {
+            let mut ids2: Vec<SegmentId> = src_ids.clone();
+            ids2.reverse();
+            second = Some(env.writer.as_mut().unwrap().merge(&ids2));
+            expect_discard = paused;
+        }
         "disjoint-merge" => {
             if !rest_ids.is_empty() {
                 second = Some(env.writer.as_mut().unwrap().merge(&rest_ids));
@@ -848,7 +895,11 @@ fn case_schedule(ctx: &mut Ctx, case_seed: u64, forced: Option<(usize, u64)>) {
     }
     if let Some(f) = second.take() {
         // let the second merge run to its end while the first is still paused
-        let _ = f.wait();
+        let second_ok = f.wait().is_ok();
+        if action.starts_with("overlap-") {
+            // the second merge consumed a source of the parked one: the parked merge is stale
+            expect_discard = paused && second_ok;
+        }
     }
     env.gate.with(|s| { s.resume = true; s.pause_at = None; });
     let res = fut.wait();
@@ -1117,6 +1168,40 @@ impl ScriptedPolicy {
     }
 }
 
+/// Correspondence for the Lean writer machine (`Sys`, theorem `C04_merge_invisible_all_traces`):
+/// the recorded events, with merge starts / ends inserted at arbitrary points, are run through
+/// the machine; its published ids must equal the sequential replay (= the real searcher, which
+/// the oracle compares separately).
+fn check_trace_model(ctx: &mut Ctx, env: &Env, rng: &mut Rng, case: &Value) {
+    // the machine with any number of merges in flight (`SysM`): starts over all / all but the
+    // first segment of a register (so that merges overlap) and ends in arbitrary order
+    const MERGE_TOKS: [&str; 8] = ["mu", "mc", "mu1", "mc1", "e:0", "e:1", "e:2", "e:0"];
+    let mut toks: Vec<String> = vec![];
+    for t in &env.evlog {
+        while rng.chance(1, 3) {
+            toks.push(rng.pick(&MERGE_TOKS).to_string());
+        }
+        toks.push(t.clone());
+    }
+    for _ in 0..4 {
+        toks.push("e:0".into());
+    }
+    let ans = ctx.model.ask(&format!("C04 tracem {}", toks.join(" ")));
+    let field = |name: &str| -> Option<BTreeSet<u64>> {
+        ans.split('/').find_map(|p| p.strip_prefix(name)).and_then(crate::model::parse_nat_list).map(|v| v.into_iter().collect())
+    };
+    ctx.report.count("trace-model:asked");
+    ctx.report.count_n("trace-model:merge-events", toks.iter().filter(|t| t.starts_with('m') || t.starts_with('e')).count() as u64);
+    match (field("pub="), field("abs=")) {
+        (Some(p), Some(ab)) => {
+            if p != env.committed || ab != env.committed {
+                ctx.report.violation("model", "C04:trace-model-vs-replay", format!("Lean writer machine publishes {} docs, its abstract replay {}, the harness replay {}; events: {}", p.len(), ab.len(), env.committed.len(), toks.join(" ")), case.clone());
+            }
+        }
+        _ => ctx.report.violation("model", "C04:trace-bad-answer", format!("writer machine answered {ans}"), case.clone()),
+    }
+}
+
 const MODE_NAMES: [&str; 4] = ["creation-order", "reverse-creation-order", "uuid-order", "largest-first"];
 
 /// E. POLICY-started merges of COMMITTED segments while deletes (and adds) are pending, i.e.
@@ -1185,6 +1270,7 @@ fn case_pending(ctx: &mut Ctx, case_seed: u64) {
                 std::thread::sleep(Duration::from_millis(2));
             }
             tantivy::verif::set_segment_cut_docs(0);
+            env.note_flush();
         }
         _ => {
             // another (explicit) merge ends: end_merge reconsiders merges under the new policy
@@ -1234,6 +1320,7 @@ fn case_pending(ctx: &mut Ctx, case_seed: u64) {
     let committed = env.committed.clone();
     let when = format!("policy merge of committed segments with pending deletes, observed {after} [{}]", log_tail(&env));
     check_index_content(ctx, &mut env, &committed, &when, &case);
+    check_trace_model(ctx, &env, &mut rng, &case);
     if ctx.report.samples.len() < 6 && merged {
         ctx.report.sample(json!({"case": "pending deletes + policy merge of committed segments", "order": MODE_NAMES[mode as usize], "trigger": trigger, "finish": after, "log": env.log.iter().rev().take(8).collect::<Vec<_>>()}));
     }
@@ -1277,6 +1364,7 @@ fn case_upsert(ctx: &mut Ctx, case_seed: u64) {
                 std::thread::sleep(Duration::from_millis(2));
             }
             tantivy::verif::set_segment_cut_docs(0);
+            env.note_flush();
             if eager {
                 std::thread::sleep(Duration::from_millis(5));
             }
@@ -1342,6 +1430,7 @@ fn case_upsert(ctx: &mut Ctx, case_seed: u64) {
     ctx.report.case(&format!("upsert|{mode}|{eager}|{nseg}|{finish}|{flush_by_cut}|{upserts}|{}", env.log.len()), true);
     let when = format!("policy merge of uncommitted segments ({}) with in-transaction deletes and re-adds, then {after} [{}]", MODE_NAMES[mode as usize], env.log.join("; "));
     check_index_content(ctx, &mut env, &committed, &when, &case);
+    check_trace_model(ctx, &env, &mut rng, &case);
 }
 
 fn run_case(ctx: &mut Ctx, kind: &str, case_seed: u64, params: &Value) {
@@ -1384,27 +1473,27 @@ pub fn run(ctx: &mut Ctx) {
         run_case(ctx, &kind, seed, &case["params"]);
         return;
     }
-    for _ in 0..ctx.budget(60, 2500) {
+    for _ in 0..ctx.budget(60, 500) {
         let s = ctx.rng.next_u64();
         run_case(ctx, "explicit", s, &json!({}));
     }
-    for _ in 0..ctx.budget(12, 300) {
+    for _ in 0..ctx.budget(12, 80) {
         let s = ctx.rng.next_u64();
         run_case(ctx, "policy", s, &json!({}));
     }
-    for _ in 0..ctx.budget(45, 1500) {
+    for _ in 0..ctx.budget(60, 400) {
         let s = ctx.rng.next_u64();
         run_case(ctx, "schedule", s, &json!({}));
     }
-    for _ in 0..ctx.budget(40, 1500) {
+    for _ in 0..ctx.budget(40, 300) {
         let s = ctx.rng.next_u64();
         run_case(ctx, "uncommitted", s, &json!({}));
     }
-    for _ in 0..ctx.budget(30, 1200) {
+    for _ in 0..ctx.budget(30, 250) {
         let s = ctx.rng.next_u64();
         run_case(ctx, "pending", s, &json!({}));
     }
-    for _ in 0..ctx.budget(40, 1500) {
+    for _ in 0..ctx.budget(40, 300) {
         let s = ctx.rng.next_u64();
         run_case(ctx, "upsert", s, &json!({}));
     }
